@@ -371,6 +371,7 @@ func C10_ParserLedgerMultiSender() {
 	if !verif.Thorough() {
 		o.FullAmounts = false
 	}
+	o.Medium = true // thorough widens the attached call and the amount lengths, not every argument length
 	s := scnMultiTransfer(o)
 	parserLedger(s, vmcommon.BuiltInFunctionMultiESDTNFTTransfer, 0, 2+3*len(scnItems))
 }
